@@ -402,7 +402,9 @@ func cmdCheck(args []string) int {
 		}
 		printedViol[id] = true
 		path := writeReplay(outDir, units, f)
-		confirmed := confirmReplay(path)
+		// A livelock is a property of the explored graph (a bottom SCC with a cycle), not of one
+		// step; determinism of the graph is what the replay validation of the search establishes.
+		confirmed := f.Monitor == "livelock" || confirmReplay(path)
 		if !confirmed {
 			fmt.Printf("UNSTABLE property=%s monitor=%s replay=%s (did not reproduce 5/5; not reported as violation)\n", prop, f.Monitor, path)
 			unstable = true
